@@ -28,7 +28,7 @@ enum { K_PAIRS, K_ACC, K_REJ, K_DIRECT_CALLS, K_DIRECT_NULL_CALLS, K_MATCH_CALLS
        K_NUM_TRAIL, K_NUM_INNER, K_NUM_OMIT, K_NUM_DIGITS, K_NUM_TRUNC, K_NUM_LEN0, K_CELL_BEYOND_UNTOUCHED, K_CELL_BEYOND_TOUCHED,
        K_REJ_NUMBERS_TOUCHED, K_PADDED, K_EMPTY_SKIPPED, K_PAT_USED, K_PAT_AMBIG, K_PAT_ASAN_SHARE_SKIP, K_AMBIG_PAIRS, K_AMBIG_DIFF,
        K_ACC_SKIPPED_OPT, K_ACC_ALL_PRESENT, K_ACC_LEADING_COLON, K_ACC_LOWER, K_ACC_QUERY, K_REJ_QUERY_MISMATCH,
-       K_COMMON_ACC, K_COMMON_REJ, K_HARV_PAT, K_NUM_LONGPAD, K_DISP_WITH_DATA, K__N };
+       K_COMMON_ACC, K_COMMON_REJ, K_HARV_PAT, K_NUM_LONGPAD, K_DISP_WITH_DATA, K_MATCH_MAXLEN, K__N };
 static const char * const knames[K__N] = { "pairs.total", "pairs.accepted", "pairs.rejected", "direct.calls", "direct.calls_numbers_null",
     "match.calls", "dispatch.inputs", "dispatch.handler_ran", "dispatch.no_handler", "dispatch.lexer_delivered_other_header",
     "dispatch.iscmd_own_header", "dispatch.iscmd_probe_true", "dispatch.iscmd_probe_false", "dispatch.commandnumbers_calls",
@@ -38,7 +38,7 @@ static const char * const knames[K__N] = { "pairs.total", "pairs.accepted", "pai
     "headers.empty_skipped", "patterns.used", "patterns.skipped_ambiguous", "patterns.outside_asan_share",
     "ambiguous.pairs_counted_only", "ambiguous.library_differs_from_reference",
     "accepted.with_skipped_optional", "accepted.all_keywords_present", "accepted.leading_colon", "accepted.lower_or_mixed_case",
-    "accepted.query", "rejected.query_mismatch", "common.accepted", "common.rejected", "patterns.harvested", "numbers.digit_strings_padded_past_int32_width", "dispatch.inputs_with_program_data_behind_the_header" };
+    "accepted.query", "rejected.query_mismatch", "common.accepted", "common.rejected", "patterns.harvested", "numbers.digit_strings_padded_past_int32_width", "dispatch.inputs_with_program_data_behind_the_header", "match.calls_with_length_of_a_larger_buffer" };
 static uint64_t kc[K__N];
 static uint64_t evals_local;
 static void flush_counters(void) {
@@ -281,6 +281,16 @@ static void check_pair(const pat_t * P, const char * hdr, size_t len, const char
     kc[K_MATCH_CALLS]++; evals_local++;
     got = SCPI_Match(P->text, hx, len) ? 1 : 0;
     if (got != r) report_acceptance(1, P, hdr, len, cls, r, got, NULL);
+
+    /* path 2b: the length argument of SCPI_Match is a MAXIMUM: a terminated header in a larger buffer, length = size of the buffer */
+    {
+        size_t pad = 1 + (size_t) (pair_no % 7), tot = len + 1 + pad; char * hz = (char *) malloc(tot);
+        memcpy(hz, hdr, len); hz[len] = 0; memset(hz + len + 1, (pair_no & 1) ? '1' : 'A', pad);
+        kc[K_MATCH_CALLS]++; kc[K_MATCH_MAXLEN]++; evals_local++;
+        got = SCPI_Match(P->text, hz, tot) ? 1 : 0;
+        if (got != r) report_acceptance(1, P, hdr, len, cls, r, got, "SCPI_Match with the length of the enclosing buffer (header NUL-terminated inside it)");
+        free(hz);
+    }
 
     /* path 3: real dispatch */
     {
@@ -635,7 +645,7 @@ int main(int argc, char ** argv) {
     vh_require("numbers.default_trailing_skipped_keyword");
     vh_require("numbers.default_inner_skipped_keyword");
     vh_require("numbers.default_suffix_omitted");
-    vh_require("numbers.value_from_digits"); vh_require("numbers.digit_strings_padded_past_int32_width"); vh_require("dispatch.inputs_with_program_data_behind_the_header");
+    vh_require("numbers.value_from_digits"); vh_require("numbers.digit_strings_padded_past_int32_width"); vh_require("dispatch.inputs_with_program_data_behind_the_header"); vh_require("match.calls_with_length_of_a_larger_buffer");
     vh_require("numbers.cells_cut_by_len");
     vh_require("common.accepted");
     vh_require("common.rejected");
